@@ -249,7 +249,11 @@ func c08TokensPart(thorough bool) c08PartSpec {
 				if len(b) <= 2 {
 					c.decodeToken(g, append(buf[:tokenNonceSize], b...))
 				}
-				// b as the plaintext of an authentic token
+				// b as the plaintext of an authentic token (3-byte plaintexts: only those
+				// starting with the ASN.1 SEQUENCE tag)
+				if len(b) == 3 && b[0] != 0x30 {
+					return
+				}
 				var sealed []byte
 				var err error
 				if c.guard("tokenProtector.NewToken", b, func() { sealed, err = g.tokenProtector.NewToken(b) }) && err == nil {
@@ -258,7 +262,7 @@ func c08TokensPart(thorough bool) c08PartSpec {
 			})
 		})
 	}
-	return c08PartSpec{chunks: chunks, bound: fmt.Sprintf("%d chunks: 4 address forms x 16 connection ID length pairs (retry), 4 x %d RTTs (NEW_TOKEN), prefixes+substitutions of all tokens; all byte strings of length <= %d raw / after a nonce (<= 2) / sealed as plaintext", len(chunks), len(rtts), c08MaxLen(thorough))}
+	return c08PartSpec{chunks: chunks, bound: fmt.Sprintf("%d chunks: 4 address forms x 16 connection ID length pairs (retry), 4 x %d RTTs (NEW_TOKEN), prefixes+substitutions of all tokens; all byte strings of length <= %d raw / after a nonce (<= 2) / sealed as plaintext (length 3: first byte 0x30 only)", len(chunks), len(rtts), c08MaxLen(thorough))}
 }
 
 // ---- session tickets -----------------------------------------------------------------------------
